@@ -409,6 +409,12 @@ class OrderGen:
             e = ["un", r.choice(["AND", "OR"]), ["list", items]]
             return ["tern", e, n(), n()] if r.random() < 0.4 else e
         if k == "arith":
+            if r.random() < 0.15:
+                # a chain of relational operators written without parentheses: `a < b <= c` is `(a < b) <= c`, each operand once
+                e = n()
+                for _ in range(r.randint(2, 4)):
+                    e = ["bin", r.choice(["<", "<=", ">", ">=", "==", "!="]), e, n() if r.random() < 0.5 else self.call()]
+                return e
             a = n()
             return ["bin", r.choice(["+", "-", "*", "+", "=="]), a, a if r.random() < 0.12 else n()]
         if k in ("lop", "rop"):
